@@ -48,9 +48,12 @@ func (p *c19Prop) Gen(r *Rng, i int, tier string) interface{} {
 		return &c19Case{Kind: "conn", CT: ct, Horizon: ct*1500 + 2500}
 	}
 	c := &c19Case{Kind: "keep", K: []int{1, 2, 2, 3, 0}[r.Intn(5)]}
-	if r.Chance(25) {
+	if r.Chance(30) {
 		c.Force = true
 		c.Period = 1 + r.Intn(2)
+		if r.Chance(40) {
+			c.K = 0 // the forced period applies to a client that asked for none, too
+		}
 	}
 	ke := c.K
 	if c.Force {
